@@ -29,6 +29,9 @@ def replay(ctx, payload):
     return c01.replay(ctx, payload)
 
 
+CLOSE_ATOMS = [('p(1,2)', 'p(12)'), ('p(1,23)', 'p(12,3)'), ('q("1",2)', 'q(1,"2")'), ('r(a,b)', 'r(ab)'), ('p(f(1),2)', 'p(f(1,2))'), ('s(-1)', '-s(1)')]
+
+
 def head_rule(rng, atoms, depth):
     f = gen.formula(rng, atoms, depth, gen.HEAD_UN, gen.HEAD_BIN, None, gen.KEYWORDS, nfold=0.45 if len(atoms) == 1 else 0.3, leaf=0.2)
     part = rng.choice(['initial', 'initial', 'always', 'dynamic', 'final'])
@@ -110,6 +113,15 @@ def programs(ctx):
                 if op == 'and':
                     rules.append({'part': 'always', 'head': ('choice', ['a', 'b']), 'body': []})
                 out.append(('head-ranges', rules))
+    # fixed family: two head formulas of one program over atoms whose names and arguments print ALMOST alike (the texts differ in a comma, a quote, a sign):
+    # whatever identifies a formula inside the translation must keep them apart
+    for x, y in CLOSE_ATOMS:
+        X_, Y_ = ('atom', x), ('atom', y)
+        for r1, r2 in (({'part': 'initial', 'head': ('tel', X_), 'body': []}, {'part': 'initial', 'head': ('tel', ('next', None, Y_)), 'body': []}),
+                       ({'part': 'initial', 'head': ('tel', ('or', X_, ('next', None, Y_))), 'body': []}, {'part': 'always', 'head': ('tel', ('or', Y_, ('not', Y_))), 'body': []}),
+                       ({'part': 'always', 'head': ('tel', ('or', ('next', None, X_), ('not', ('next', None, X_)))), 'body': []}, {'part': 'dynamic', 'head': ('tel', ('until', None, Y_)), 'body': []})):
+            out.append(('head-close-atoms', [r1, r2]))
+            out.append(('head-close-atoms', [r2, r1]))
     return out
 
 
